@@ -7,12 +7,14 @@
                      (Model/AutoGen.construct), reports the MapSpec of every function of the constructed pipeline
                      (structured and as str(f.mapspec)), applies the input validations of Pipeline.map
                      (Model/MapPrepare.prepare_checks; `aslist` = names of the inputs passed as Python lists) and runs
-                     the map on the effective list.  The inputs need not conform (missing / surplus / list of rank 2). *)
+                     the map on the effective list.  The inputs need not conform (missing / surplus / list of rank 2).
+                     `wrapped` = names of the functions whose element values are PAIRS (tuple / list / 1-d ndarray,
+                     Model/SymBody.sym_body_w); [] = the plain structural functions. *)
 From Verif Require Export Corr.Run_C01 Model.AutoGen Model.AutoGenSpec Model.MapPrepare.
 
 Inductive case :=
 | CReq (c : Run_C01.case)
-| CAuto (c : Run_C01.case) (order : list nat) (aslist : list str).
+| CAuto (c : Run_C01.case) (order : list nat) (aslist : list str) (wrapped : list str).
 
 (* ---------- observation of a MapSpec ---------- *)
 Definition sx_axis (a : option str) : sx := match a with Some x => SS x | None => SNone end.
@@ -69,13 +71,41 @@ Definition reorder (fs effp : list mfunc) : list mfunc :=
 Definition mkreq (c : Run_C01.case) (fs : list mfunc) : Run_C01.case :=
   {| c_funcs := fs; c_inputs := c_inputs c; c_internal := c_internal c |}.
 
+(* Run_C01.run / expected / spec_ok for an arbitrary user-function oracle *)
+Definition run_b (body : mfunc -> env -> result (list val)) (c : Run_C01.case) : sx :=
+  match map_run body (c_funcs c) (c_inputs c) (c_internal c) with
+  | Ok st => SL [SS (s "ok");
+                 SL (map (fun x => SL [SS (fst (fst x)); sx_val (snd (fst x)); sx_val (snd x)]) (r_out st));
+                 SN (r_calls st)]
+  | Err e => SErr e
+  end.
+
+Definition expected_b (body : mfunc -> env -> result (list val)) (c : Run_C01.case) : result sx :=
+  do d <- denote_run body (c_funcs c) (c_inputs c) (c_internal c);
+  Ok (SL (map (fun x => SL [SS (fst x); sx_val (snd x); sx_val (snd x)]) (d_out d))).
+
+Definition spec_ok_b (body : mfunc -> env -> result (list val)) (c : Run_C01.case) (o : sx) : bool :=
+  if negb (request_ok (c_funcs c) (c_inputs c)) then true else
+  match expected_b body c with
+  | Err _ => true
+  | Ok want =>
+      match o with
+      | SL [SS t; got; SI _] => str_eqb t (s "ok") && sx_eqb got want
+      | _ => false
+      end
+  end.
+
+(* the structural user functions of a CAuto case *)
+Definition body_of (c : Run_C01.case) (wrapped : list str) : mfunc -> env -> result (list val) :=
+  sym_body_w wrapped (flat_map fouts (filter (fun f => mem_str (fname f) wrapped) (c_funcs c))).
+
 (* observation of CAuto:  err class  (construction failed)
                        |  ["maperr"; err; specs]   (map failed)
                        |  ["ok"; outputs; calls; specs] *)
 Definition run (c : case) : sx :=
   match c with
   | CReq c => Run_C01.run c
-  | CAuto c order aslist =>
+  | CAuto c order aslist wrapped =>
       match construct (permuted (c_funcs c) order) with
       | Err e => SErr e
       | Ok effp =>
@@ -84,7 +114,7 @@ Definition run (c : case) : sx :=
           match prepare_checks eff (c_inputs c) aslist with
           | Err e => SL [SS (s "maperr"); SErr e; specs]
           | Ok _ =>
-              match Run_C01.run (mkreq c eff) with
+              match run_b (body_of c wrapped) (mkreq c eff) with
               | SL [SS t; outs; calls] => SL [SS t; outs; calls; specs]
               | e => SL [SS (s "maperr"); e; specs]
               end
@@ -121,7 +151,7 @@ Definition constructible (c : Run_C01.case) (order : list nat) : bool :=
 Definition spec_ok (c : case) (o : sx) : bool :=
   match c with
   | CReq c => Run_C01.spec_ok c o
-  | CAuto c order aslist =>
+  | CAuto c order aslist wrapped =>
       let user := permuted (c_funcs c) order in
       let with_specs (specs : list sx) (k : Run_C01.case -> bool) : bool :=
         match un_list un_spec specs with
@@ -133,9 +163,9 @@ Definition spec_ok (c : case) (o : sx) : bool :=
         end in
       match o with
       | SL [SS t; outs; calls; SL specs] =>
-          str_eqb t (s "ok") && with_specs specs (fun r => Run_C01.spec_ok r (SL [SS t; outs; calls]))
+          str_eqb t (s "ok") && with_specs specs (fun r => spec_ok_b (body_of c wrapped) r (SL [SS t; outs; calls]))
       | SL [SS t; e; SL specs] =>
-          str_eqb t (s "maperr") && with_specs specs (fun r => Run_C01.spec_ok r e)
+          str_eqb t (s "maperr") && with_specs specs (fun r => spec_ok_b (body_of c wrapped) r e)
       | SL [SS t; SS _] => str_eqb t (s "err") && negb (constructible c order)
       | _ => false
       end
